@@ -167,19 +167,29 @@ fn read_body_port_message<'n>(
         return Err(WriterError::NodeNotFound("operation_name".to_string()));
     };
 
-    // if there are no parts defined we assume that the message is the same as the operation name
+    // the parts that sibling soap:header elements bind travel in the header, not in the body
+    let header_parts = node
+        .parent()
+        .into_iter()
+        .flat_map(|p| p.children())
+        .filter(|n| n.is_element() && n.tag_name().name() == "header")
+        .filter_map(|n| n.attribute("part"))
+        .collect::<Vec<&str>>();
+    let in_body = |(name, _): &(&XmlName, _)| !header_parts.contains(&name.as_str());
+
+    // if there are no parts defined the body is the (first) part of the message that is not bound to a header
     let (_name, (rust_node, _namespace)) = match in_or_out {
         InputOrOutput::Input => port_operation
             .input
             .message
             .parts
             .iter()
-            .next()
+            .find(in_body)
             .ok_or(WriterError::NodeNotFound(operation_name.to_string()))?,
         InputOrOutput::Output => port_operation
             .output
             .as_ref()
-            .and_then(|o| o.message.parts.iter().next())
+            .and_then(|o| o.message.parts.iter().find(in_body))
             .ok_or(WriterError::NodeNotFound(operation_name.to_string()))?,
     };
 
